@@ -17,7 +17,7 @@ Ctx(e, len) == [quads |-> {<<q[1], q[2], q[3], q[4]>> : q \in ToSet(e.quads)}, g
                 kind |-> e.kind, num |-> e.num, rank |-> e.rank, canon |-> ToSet(e.canon), lenient |-> len]
 
 \* a JSON object is a record = a function over its keys: exactly a solution mapping
-Same(e, len) == LET X == Ctx(e, len) IN SeqBag(e.sols) = Eval(X, e.q.p, ViewOf(X, e.q), "")
+Same(e, len) == LET X == Ctx(e, len) IN SeqBag(e.sols) = Solutions(X, e.q, ViewOf(X, e.q), "")
 
 Judge(e) ==
   LET X == Ctx(e, {}) IN
@@ -30,6 +30,8 @@ Judge(e) ==
   ELSE IF Same(e, {"concat"}) THEN "lenient:concat"
   ELSE IF Same(e, {"order"}) THEN "lenient:order"
   ELSE IF Same(e, {"unbound", "types", "concat", "order"}) THEN "lenient:several"
+  ELSE IF Same(e, {"sideways"}) THEN "lenient:sideways"
+  ELSE IF Same(e, {"sideways", "unbound", "types", "concat", "order"}) THEN "lenient:sideways+"
   ELSE "wrong"
 
 Step ==
